@@ -549,10 +549,14 @@ func (e *env) checkReads(rc *rec) {
 	out := reflect.New(e.m.typ)
 	var res *gorm.DB
 	how := "First"
-	if e.readRot%2 == 0 {
+	switch e.readRot % 5 {
+	case 0, 2:
 		how = "Take"
 		res = e.tx().Where(where, rc.pkArgs...).Take(out.Interface())
-	} else {
+	case 4:
+		how = "Find" // Find into a single struct
+		res = e.tx().Where(where, rc.pkArgs...).Find(out.Interface())
+	default:
 		res = e.tx().Where(where, rc.pkArgs...).First(out.Interface())
 	}
 	how = fmt.Sprintf("%s.Where(%q, %v).%s(&T{})", e.recv(), where, rc.pkArgs, how)
@@ -564,11 +568,14 @@ func (e *env) checkReads(rc *rec) {
 	}
 	// map destination
 	mp := map[string]interface{}{}
-	rot := e.readRot % 3
+	rot := e.readRot % 4
 	if e.modelMapBroken {
 		rot = 2
 	}
 	switch rot {
+	case 3:
+		how = fmt.Sprintf("%s.Model(&T{}).Where(%q, %v).Find(&map)", e.recv(), where, rc.pkArgs)
+		res = e.tx().Model(e.newModelPtr()).Where(where, rc.pkArgs...).Find(&mp)
 	case 0:
 		how = fmt.Sprintf("%s.Model(&T{}).Where(%q, %v).Take(&map)", e.recv(), where, rc.pkArgs)
 		res = e.tx().Model(e.newModelPtr()).Where(where, rc.pkArgs...).Take(&mp)
@@ -826,6 +833,9 @@ func (e *env) runMapShape(shape string) {
 	if strings.HasPrefix(shape, "maps") {
 		n = r.Range(1, 4)
 	}
+	if shape == "maps-batches" {
+		n = r.Range(2, 5)
+	}
 	preset := m.auto != nil && r.Chance(1, 5)
 	recs := make([]*rec, n)
 	var maps []map[string]interface{}
@@ -874,6 +884,16 @@ func (e *env) runMapShape(shape string) {
 	case "maps":
 		e.op("%s.Model(&T{}).Create([]map[string]interface{}{%s})", e.recv(), strings.Join(lits, ", "))
 		res = e.tx().Model(e.newModelPtr()).Create(maps)
+	case "maps-batches":
+		// in batches AND from maps: every batch is a sub-slice handed to the create callbacks by value
+		bs := r.Range(1, n+1)
+		if r.Bool() {
+			e.op("%s.Model(&T{}).CreateInBatches([]map[string]interface{}{%s}, %d)", e.recv(), strings.Join(lits, ", "), bs)
+			res = e.tx().Model(e.newModelPtr()).CreateInBatches(maps, bs)
+		} else {
+			e.op("%s.Model(&T{}).CreateInBatches(&[]map[string]interface{}{%s}, %d)", e.recv(), strings.Join(lits, ", "), bs)
+			res = e.tx().Model(e.newModelPtr()).CreateInBatches(&maps, bs)
+		}
 	default:
 		e.op("%s.Model(&T{}).Create(&[]map[string]interface{}{%s})", e.recv(), strings.Join(lits, ", "))
 		res = e.tx().Model(e.newModelPtr()).Create(&maps)
@@ -1184,6 +1204,8 @@ func runEnv(c *core.Ctx, m *model, o optSpec, feats []string, info map[string]in
 	// Create([]map) by value goes last: where it panics inside gorm, the database handle is lost
 	c.Logf("SHAPE maps")
 	e.runMapShape("maps")
+	c.Logf("SHAPE maps-batches")
+	e.runMapShape("maps-batches")
 	// last of all (a panic costs the handle): a nil *SelfJS, whose Value method has a value receiver
 	for _, l := range m.leaves {
 		if l.typ == ptrTo(SelfJS{}) {
